@@ -209,6 +209,40 @@ Definition tmap {A} (f : A -> tres) : list A -> option (option (list tag)) :=
       end
   end.
 
+(* the typed arrays written from a []any ("[]any holding bool, int8 or uint8 values", fix 36aa581) *)
+Fixpoint any_bytes (l : list aval) (acc : list N) : tres :=
+  match l with
+  | [] => TOk (TByteArray (rev_append acc []))
+  | AByte v :: r => any_bytes r (u8 v :: acc)
+  | _ => TErr
+  end.
+Fixpoint any_ints (l : list aval) (acc : list Z) : tres :=
+  match l with
+  | [] => TOk (TIntArray (rev_append acc []))
+  | AInt v :: r => any_ints r (v :: acc)
+  | _ => TErr
+  end.
+Fixpoint any_longs (l : list aval) (acc : list Z) : tres :=
+  match l with
+  | [] => TOk (TLongArray (rev_append acc []))
+  | ALong v :: r => any_longs r (v :: acc)
+  | _ => TErr
+  end.
+(* a TagList written from a []any: every element must have the tag of the first (fix c243e1a) *)
+Definition av_list (f : aval -> tres) (tg : aval -> N) (et : N) : list aval -> list tag -> tres :=
+  fix go (l : list aval) (acc : list tag) : tres :=
+  match l with
+  | [] => TOk (TList et (rev_append acc []))
+  | y :: r => if tg y =? et then tbind (f y) (fun t => go r (t :: acc)) else TErr
+  end.
+Definition av_map (f : aval -> tres) : list (list N * aval) -> list (list N * tag) -> tres :=
+  fix go (m : list (list N * aval)) (acc : list (list N * tag)) : tres :=
+  match m with
+  | [] => TOk (TCompound (rev_append acc []))
+  | kv :: r => if name_too_long (fst kv) then TErr
+               else tbind (f (snd kv)) (fun t => go r ((fst kv, t) :: acc))
+  end.
+
 (* writeValue on a dynamic value held by an interface (Encoder.marshal: none of these is a Marshaler) *)
 Fixpoint any_tree (a : aval) : tres :=
   match a with
@@ -222,43 +256,12 @@ Fixpoint any_tree (a : aval) : tres :=
       | [] => TOk (TList idEnd [])                   (* getTagTypeByType(interface{}) = TagEnd *)
       | x :: _ =>
           let et := any_tag x in
-          if et =? idByte then                       (* "[]any holding bool, int8 or uint8 values" *)
-            (fix go (l : list aval) (acc : list N) : tres :=
-               match l with
-               | [] => TOk (TByteArray (rev_append acc []))
-               | AByte v :: r => go r (u8 v :: acc)
-               | _ => TErr
-               end) l []
-          else if et =? idInt then
-            (fix go (l : list aval) (acc : list Z) : tres :=
-               match l with
-               | [] => TOk (TIntArray (rev_append acc []))
-               | AInt v :: r => go r (v :: acc)
-               | _ => TErr
-               end) l []
-          else if et =? idLong then
-            (fix go (l : list aval) (acc : list Z) : tres :=
-               match l with
-               | [] => TOk (TLongArray (rev_append acc []))
-               | ALong v :: r => go r (v :: acc)
-               | _ => TErr
-               end) l []
-          else
-            (fix go (l : list aval) (acc : list tag) : tres :=
-               match l with
-               | [] => TOk (TList et (rev_append acc []))
-               | y :: r => if any_tag y =? et                      (* mixed lists refused: fix c243e1a *)
-                           then tbind (any_tree y) (fun t => go r (t :: acc))
-                           else TErr
-               end) l []
+          if et =? idByte then any_bytes l []
+          else if et =? idInt then any_ints l []
+          else if et =? idLong then any_longs l []
+          else av_list (fun y => any_tree y) any_tag et l []
       end
-  | AMap m =>
-      (fix go (m : list (list N * aval)) (acc : list (list N * tag)) : tres :=
-         match m with
-         | [] => TOk (TCompound (rev_append acc []))
-         | kv :: r => if name_too_long (fst kv) then TErr
-                      else tbind (any_tree (snd kv)) (fun t => go r ((fst kv, t) :: acc))
-         end) m []
+  | AMap m => av_map (fun y => any_tree y) m []
   end.
 
 (* the `list` option: a typed array is written as a TagList of its elements instead *)
@@ -295,6 +298,29 @@ Fixpoint omap {A B} (f : A -> option B) (l : list A) : option (list B) :=
   match l with
   | [] => Some []
   | x :: r => match f x, omap f r with Some y, Some ys => Some (y :: ys) | _, _ => None end
+  end.
+
+(* the field loop of writeValue for a struct: fields in table order; acc holds the entries written so far *)
+Definition fields_enc (encf : gtype -> gv -> tres) :
+  list (finfo * gtype) -> list gv -> list (list N * tag) -> tres :=
+  fix go (fs : list (finfo * gtype)) (vs : list gv) (acc : list (list N * tag)) : tres :=
+  match fs, vs with
+  | [], [] => TOk (TCompound (rev_append acc []))
+  | f :: fr, x :: vr =>
+      if f_skip (fst f) then go fr vr acc
+      else if f_omit (fst f) && is_empty (snd f) x then go fr vr acc
+      else if get_tag (snd f) x =? idEnd then TErr
+      else if f_list (fst f) && negb ((get_tag (snd f) x =? idByteArray) || (get_tag (snd f) x =? idIntArray)
+                                      || (get_tag (snd f) x =? idLongArray)) then TErr
+      else if name_too_long (f_name (fst f)) then TErr
+      else tbind (encf (snd f) x) (fun tr =>
+             if f_list (fst f) then
+               match as_list tr with
+               | Some tl => go fr vr ((f_name (fst f), tl) :: acc)
+               | None => TErr
+               end
+             else go fr vr ((f_name (fst f), tr) :: acc))
+  | _, _ => TPanic
   end.
 
 (* Encoder.marshal / writeValue for a value of static type t *)
@@ -340,25 +366,7 @@ Fixpoint enc (t : gtype) (v : gv) {struct t} : tres :=
   | YStruct fs =>
       match v with
       | GvStruct vs =>
-          (fix go (fs : list (finfo * gtype)) (vs : list gv) (acc : list (list N * tag)) : tres :=
-             match fs, vs with
-             | [], [] => TOk (TCompound (rev_append acc []))
-             | f :: fr, x :: vr =>
-                 if f_skip (fst f) then go fr vr acc
-                 else if f_omit (fst f) && is_empty (snd f) x then go fr vr acc
-                 else if get_tag (snd f) x =? idEnd then TErr
-                 else if f_list (fst f) && negb ((get_tag (snd f) x =? idByteArray) || (get_tag (snd f) x =? idIntArray)
-                                                 || (get_tag (snd f) x =? idLongArray)) then TErr
-                 else if name_too_long (f_name (fst f)) then TErr
-                 else tbind (enc (snd f) x) (fun tr =>
-                        if f_list (fst f) then
-                          match as_list tr with
-                          | Some tl => go fr vr ((f_name (fst f), tl) :: acc)
-                          | None => TErr
-                          end
-                        else go fr vr ((f_name (fst f), tr) :: acc))
-             | _, _ => TPanic
-             end) fs vs []
+          fields_enc (fun t x => enc t x) fs vs []
       | _ => TPanic
       end
   | YPtr e =>
@@ -502,6 +510,49 @@ Definition arr_into {A} (t : gtype) (conv : gtype -> A -> option gv) (l : list A
   | _ => UErr
   end.
 
+(* the entries of a compound going into a map: one fresh value per entry, m[k] = v (last one wins) *)
+Definition map_loop (f : tag -> ures) : list (list N * tag) -> list (list N * gv) -> option (option (list (list N * gv))) :=
+  fix go (es : list (list N * tag)) (acc : list (list N * gv)) : option (option (list (list N * gv))) :=
+  match es with
+  | [] => Some (Some acc)
+  | kx :: r =>
+      match f (snd kx) with
+      | UOk y => go r (map_set (fst kx) y acc)
+      | UErr => Some None
+      | UOut => None
+      end
+  end.
+(* the entries of a compound going into a struct: field lookup, unknown keys skipped (rawRead); acc holds the
+   fields decoded so far by name; a second entry for the same field is outside the model (None) *)
+Definition struct_loop (fs : list (finfo * gtype)) (f : tag -> gtype -> ures) :
+  list (list N * tag) -> list (list N * gv) -> option (option (list (list N * gv))) :=
+  fix go (es : list (list N * tag)) (acc : list (list N * gv)) : option (option (list (list N * gv))) :=
+  match es with
+  | [] => Some (Some acc)
+  | kx :: r =>
+      match find_field fs (fst kx) with
+      | None => go r acc
+      | Some fd =>
+          match assoc (f_name (fst fd)) acc with
+          | Some _ => None
+          | None =>
+              match f (snd kx) (snd fd) with
+              | UOk y => go r ((f_name (fst fd), y) :: acc)
+              | UErr => Some None
+              | UOut => None
+              end
+          end
+      end
+  end.
+(* the struct assembled from the decoded fields; the others keep the zero value of the fresh variable *)
+Definition struct_of (fs : list (finfo * gtype)) (acc : list (list N * gv)) : gv :=
+  GvStruct (map (fun f : finfo * gtype =>
+                   if f_skip (fst f) then zero (snd f)
+                   else match assoc (f_name (fst f)) acc with
+                        | Some y => y
+                        | None => zero (snd f)
+                        end) fs).
+
 (* indirect + the result stored through the allocated pointers *)
 Definition via (r : ures) (t : gtype) : ures := ubind r (fun v => UOk (wrap_ptr (ptr_depth t) v)).
 
@@ -546,45 +597,13 @@ Fixpoint unm_base (tr : tag) (b : gtype) {struct tr} : ures :=
     | TCompound es =>
         match b with
         | YStruct fs =>
-            match (fix go (es : list (list N * tag)) (acc : list (list N * gv)) : option (option (list (list N * gv))) :=
-                     match es with
-                     | [] => Some (Some acc)
-                     | kx :: r =>
-                         match find_field fs (fst kx) with
-                         | None => go r acc                          (* rawRead: skipped *)
-                         | Some f =>
-                             match assoc (f_name (fst f)) acc with
-                             | Some _ => None
-                             | None =>
-                                 match via (unm_base (snd kx) (ptr_base (snd f))) (snd f) with
-                                 | UOk y => go r ((f_name (fst f), y) :: acc)
-                                 | UErr => Some None
-                                 | UOut => None
-                                 end
-                             end
-                         end
-                     end) es [] with
-            | Some (Some acc) =>
-                UOk (GvStruct (map (fun f : finfo * gtype =>
-                                      if f_skip (fst f) then zero (snd f)
-                                      else match assoc (f_name (fst f)) acc with
-                                           | Some y => y
-                                           | None => zero (snd f)
-                                           end) fs))
+            match struct_loop fs (fun x t => via (unm_base x (ptr_base t)) t) es [] with
+            | Some (Some acc) => UOk (struct_of fs acc)
             | Some None => UErr
             | None => UOut
             end
         | YMap e =>
-            match (fix go (es : list (list N * tag)) (acc : list (list N * gv)) : option (option (list (list N * gv))) :=
-                     match es with
-                     | [] => Some (Some acc)
-                     | kx :: r =>
-                         match via (unm_base (snd kx) (ptr_base e)) e with
-                         | UOk y => go r (map_set (fst kx) y acc)
-                         | UErr => Some None
-                         | UOut => None
-                         end
-                     end) es [] with
+            match map_loop (fun x => via (unm_base x (ptr_base e)) e) es [] with
             | Some (Some acc) => UOk (GvMap acc)
             | Some None => UErr
             | None => UOut
@@ -673,6 +692,14 @@ Fixpoint any_ok (a : aval) : bool :=
 Definition elem_plain (e : gtype) : bool :=
   match e with YIface | YPtr _ => false | _ => true end.
 
+Definition fields_typed (ht : gtype -> gv -> bool) : list (finfo * gtype) -> list gv -> bool :=
+  fix go (fs : list (finfo * gtype)) (vs : list gv) : bool :=
+  match fs, vs with
+  | [], [] => true
+  | f :: fr, x :: vr => ht (snd f) x && go fr vr
+  | _, _ => false
+  end.
+
 Fixpoint has_type (t : gtype) (v : gv) {struct t} : bool :=
   match t, v with
   | YBool, GvBool _ => true
@@ -686,12 +713,7 @@ Fixpoint has_type (t : gtype) (v : gv) {struct t} : bool :=
       Nat.eqb (length l) n && (lenN l <? 2^31) && (elem_plain e || (get_tag t v =? idList)) && forallb (has_type e) l
   | YMap e, GvMap m => keys_nodup m && forallb (fun kv => all_bytesb (fst kv) && has_type e (snd kv)) m
   | YStruct fs, GvStruct vs =>
-      (fix go (fs : list (finfo * gtype)) (vs : list gv) : bool :=
-         match fs, vs with
-         | [], [] => true
-         | f :: fr, x :: vr => has_type (snd f) x && go fr vr
-         | _, _ => false
-         end) fs vs
+      fields_typed (fun t x => has_type t x) fs vs
   | YPtr e, GvPtr (Some x) => has_type e x
   | YPtr e, GvPtr None => has_type e (zero e)      (* written as the zero value *)
   | YIface, GvIface (Some a) => any_ok a
@@ -736,20 +758,22 @@ Fixpoint documented (t : gtype) : bool :=
    - a field left out of the table ("-", unexported) comes back as the zero value;
    - a dynbt Value does not keep the element id of an empty list;
    everything else comes back identical (floats by bits, integers by value). *)
+Definition canon_fields (cf : gtype -> gv -> gv) : list (finfo * gtype) -> list gv -> list gv :=
+  fix go (fs : list (finfo * gtype)) (vs : list gv) : list gv :=
+  match fs, vs with
+  | f :: fr, x :: vr =>
+      (if f_skip (fst f) then zero (snd f)
+       else if f_omit (fst f) && is_empty (snd f) x then zero (snd f)
+       else cf (snd f) x) :: go fr vr
+  | _, _ => []
+  end.
 Fixpoint canon (t : gtype) (v : gv) {struct t} : gv :=
   match t, v with
   | YSlice e, GvList l => GvList (map (canon e) l)
   | YArray _ e, GvList l => GvList (map (canon e) l)
   | YMap e, GvMap m => GvMap (map (fun kv => (fst kv, canon e (snd kv))) m)
   | YStruct fs, GvStruct vs =>
-      GvStruct ((fix go (fs : list (finfo * gtype)) (vs : list gv) : list gv :=
-                   match fs, vs with
-                   | f :: fr, x :: vr =>
-                       (if f_skip (fst f) then zero (snd f)
-                        else if f_omit (fst f) && is_empty (snd f) x then zero (snd f)
-                        else canon (snd f) x) :: go fr vr
-                   | _, _ => []
-                   end) fs vs)
+      GvStruct (canon_fields (fun t x => canon t x) fs vs)
   | YPtr e, GvPtr (Some x) => GvPtr (Some (canon e x))
   | YPtr e, GvPtr None => GvPtr (Some (canon e (zero e)))
   | YDyn, GvDyn (Some tr) => GvDyn (Some (dyn_norm tr))
